@@ -97,7 +97,7 @@ type c06Long struct {
 	Tail string  `plenc:"5"`
 }
 
-var c06Sink [64]*c06Long
+var c06Sink [4][16]*c06Long // one ring per allocating goroutine
 
 // c06Collected: a value passed to Marshal by value (or through a pointer the caller drops) lives only
 // through the call; its first field takes long enough to encode for whole garbage collections to
@@ -144,7 +144,7 @@ func c06Collected(c *core.Ctx, idx int) {
 					return
 				default:
 				}
-				c06Sink[(w*16+k)%64] = &c06Long{Big: []int64{int64(k)}, Name: "somebody else's name", N: -k, P: &other, Tail: "somebody else's tail"}
+				c06Sink[w][k%16] = &c06Long{Big: []int64{int64(k)}, Name: "somebody else's name", N: -k, P: &other, Tail: "somebody else's tail"}
 				if k%64 == 0 {
 					runtime.Gosched()
 				}
@@ -180,9 +180,7 @@ func c06Collected(c *core.Ctx, idx int) {
 	}
 	close(stop)
 	wg.Wait()
-	for i := range c06Sink {
-		c06Sink[i] = nil
-	}
+	c06Sink = [4][16]*c06Long{}
 	if fail != "" {
 		rec.Violation("repetition", fail, nil)
 		return
